@@ -62,22 +62,22 @@ Proof. exact Order.cmp_of_laws. Qed.
 Print Assumptions c01_comparators_lawful.
 
 (* ---------------------------------------------------------------------------------------------- *)
-(* REGENERATED FROM THE SOURCE ON EVERY RUN (tools/gen -> Generated.g_code; Decisions.v): the decisions the model
+(* REGENERATED FROM THE SOURCE ON EVERY RUN (tools/gen -> Generated.g_code; DecBase.v, Dec*.v): the decisions the model
    takes at these points are the evaluations of the conditions the Go source has there, for all values of their
    variables. *)
-From GK Require Import GExpr Generated Decisions.
+From GK Require Import GExpr Generated DecBase DecTreap.
 From Coq Require Import String.
 
 (* treap.go union / join: the root is `this` iff its priority is strictly greater (ties go to `that`) *)
 Theorem c01_union_priority_is_source :
   exists c, decisions "Store.union" "thisItem.Priority" = [c] /\
             forall x y, gtrue (prio_env x y) c = Some (Z.gtb x y).
-Proof. exact Decisions.union_priority_decision. Qed.
+Proof. exact DecTreap.union_priority_decision. Qed.
 Print Assumptions c01_union_priority_is_source.
 Theorem c01_join_priority_is_source :
   exists c, decisions "Store.join" "thisItem.Priority" = [c] /\
             forall x y, gtrue (prio_env x y) c = Some (Z.gtb x y).
-Proof. exact Decisions.join_priority_decision. Qed.
+Proof. exact DecTreap.join_priority_decision. Qed.
 Print Assumptions c01_join_priority_is_source.
 
 (* split and GetItem branch on the three-way comparison as Treap.split / Treap.lookup match on it *)
@@ -86,14 +86,14 @@ Theorem c01_split_compare_is_source :
     forall o : comparison,
       gtrue (c_env (cmpz o)) c1 = Some (match o with Eq => true | _ => false end) /\
       gtrue (c_env (cmpz o)) c2 = Some (match o with Lt => true | _ => false end).
-Proof. exact Decisions.split_compare_decisions. Qed.
+Proof. exact DecTreap.split_compare_decisions. Qed.
 Print Assumptions c01_split_compare_is_source.
 Theorem c01_getitem_compare_is_source :
   exists c1 c2, decisions "Collection.GetItem" "c" = [c1; c2] /\
     forall o : comparison,
       gtrue (c_env (cmpz o)) c1 = Some (match o with Lt => true | _ => false end) /\
       gtrue (c_env (cmpz o)) c2 = Some (match o with Gt => true | _ => false end).
-Proof. exact Decisions.getitem_compare_decisions. Qed.
+Proof. exact DecTreap.getitem_compare_decisions. Qed.
 Print Assumptions c01_getitem_compare_is_source.
 
 (* SetItem's validation is Treap.valid_item *)
@@ -104,7 +104,7 @@ Theorem c01_validation_is_source :
       exists b1 b2, gtrue (item_env keynil key val prio) c1 = Some b1 /\
                     gtrue (item_env keynil key val prio) c2 = Some b2 /\
                     valid_item key val prio = negb b1 && negb b2.
-Proof. exact Decisions.setitem_validation_decisions. Qed.
+Proof. exact DecTreap.setitem_validation_decisions. Qed.
 Print Assumptions c01_validation_is_source.
 
 (* every node union / split / join build carries numNodes = left + right + 1 and numBytes = left + right + the bytes of
@@ -120,12 +120,12 @@ Theorem c01_node_aggregates_are_source :
      let rho := upd (upd (upd (upd (upd env0 "leftNum" ln) "rightNum" rn) "leftBytes" lb) "rightBytes" rb) "x.NumBytes(t)" ib in
      geval rho (GBin "+" (GBin "+" (GVar "leftNum") (GVar "rightNum")) (GInt 1)) = Some (ln + rn + 1)%Z /\
      geval rho (GBin "+" (GBin "+" (GVar "leftBytes") (GVar "rightBytes")) (GCall "uint64" [GCall "x.NumBytes" [GVar "t"]])) = Some (lb + rb + ib)%Z).
-Proof. exact Decisions.node_aggregates_are_mk. Qed.
+Proof. exact DecTreap.node_aggregates_are_mk. Qed.
 Print Assumptions c01_node_aggregates_are_source.
 
 Theorem c01_new_node_is_source :
   agg_calls "Collection.SetItem" =
   [("t.mkNode", [GNil; GNil; GNil; GInt 1;
                  GBin "+" (GCall "uint64" [GCall "len" [GVar "item.Key"]]) (GCall "uint64" [GCall "item.NumValBytes" [GVar "t"]])])].
-Proof. exact Decisions.new_node_is_single. Qed.
+Proof. exact DecTreap.new_node_is_single. Qed.
 Print Assumptions c01_new_node_is_source.
